@@ -89,15 +89,19 @@ package httpcache
 
 // The goroutine body of backgroundRevalidate: loads its own copy of the entry, sends the
 // conditional request, finishes the validation with the index and position it was given.
+// (the worker sends its result exactly once; the channel it is given has room for it, so the worker
+// never blocks when the supervisor has already given up - C20: no goroutine outlives the request)
 //@ func (*transport).backgroundRevalidate$1
-//@   property C08 C18 C06 C16
+//@   property C08 C18 C06 C16 C20
 //@   nosafety
+//@   requires errc != nil && cap(*errc) >= 1                                # name: result-channel-has-room-for-the-single-send   props: C20
 //@   requires r != nil && wired(*r) && req != nil && *req != nil && (*req).URL != nil && freshness != nil && *freshness != nil && (*freshness).Age != nil
 //@   requires !reqOIC(*req)
 //@   requires (*req).Method == "GET" && hget((*req).Header, "Range") == ""
 //@   requires hasArr(*ccReq) == dirsHas(ccText((*req).Header))
 //@   requires *refs == indexRead || len(*refs) == 0
 //@   assigns *
+//@   ensures sent(*errc) <= old(sent(*errc)) + 1                             # name: worker-sends-its-result-at-most-once   props: C20
 
 //@ func (*transport).handleStaleWhileRevalidate
 //@   property C01 C02 C18 C20 C11 C08 C09
